@@ -361,6 +361,20 @@ fn gen_c08(rng: &mut Rng, tier: Tier, with_panics: bool) -> LoopScn {
     gen_alloc_script(rng, &mut s, true);
     if with_panics {
         gen_panic(rng, &mut s, true);
+        // Sometimes a second site on other threads, at its own phase / call.
+        if rng.chance(3, 10) {
+            let first = s.panic.clone();
+            gen_panic(rng, &mut s, true);
+            let mut second = s.panic.take();
+            s.panic = first;
+            if let (Some(a), Some(b)) = (&s.panic, &mut second) {
+                b.tids.retain(|t| !a.tids.contains(t));
+                if b.tids.is_empty() {
+                    second = None;
+                }
+            }
+            s.panic2 = second;
+        }
     }
     if rng.chance(1, 5) {
         s.spurious_parks.push((0, rng.range(0, 3) as u32));
@@ -669,6 +683,12 @@ impl Case for LoopScn {
                         return false;
                     }
                 }
+                if let Some(p) = &mut s.panic2 {
+                    p.tids.retain(|&x| x < t);
+                    if p.tids.is_empty() {
+                        s.panic2 = None;
+                    }
+                }
                 s.clock.skew.truncate(t);
                 true
             } else {
@@ -695,6 +715,7 @@ impl Case for LoopScn {
         });
         push(&|s| std::mem::take(&mut s.spurious_parks).len() > 0);
         push(&|s| std::mem::take(&mut s.prelude_threads) > 0);
+        push(&|s| s.panic2.take().is_some());
         push(&|s| {
             if s.clock_faults.len() > 0 {
                 s.clock_faults.pop();
